@@ -90,3 +90,8 @@ claim("C10",
       "Not decided: [0,100] for STOCH and ADX, [-100,100] for TSI (relational facts between run-time series). Assumes well-formed candles, multiplier > 0, 0 < smoothing <= period+1; induction hypothesis on previous own readings.",
       "value numbering (R-AFFINE) + sign/interval domain (R-SIGN/R-INTERVALS) + finite-domain case analysis (R-FINITE) + ordering rule (R-ROUND)",
       "DESIGN.md §4 C10")
+claim("C17",
+      "Decides the documented meaning of every predicate as a fact about its normal form: the exact set of comparisons each movement function performs on readings (strictness, positions, tie rule, cross = above now and below before), which windows include the current candle, that cleaned windows keep exactly the numbers, the candle geometry formulas, that each pattern is the conjunction of exactly its documented clauses (each clause compared as a value number with the documented expression), and scale/shift invariance through a homogeneity (affine-unit) analysis that is complete for that clause. These hold for every candle list, index and length because they are computed from the code, not from samples.",
+      "Behaviour 'with a clear margin' on constructed witnesses is an evaluation of the predicates and is not decided; invariance is in exact arithmetic.",
+      "abstract interpretation with callee inlining: comparison-set extraction, clause-set value numbering, affine-unit homogeneity analysis",
+      "DESIGN.md §4 C17")
